@@ -11,7 +11,7 @@ Definition err_code (e : err) : nat :=
 Definition err_eqb (a b : err) : bool := Nat.eqb (err_code a) (err_code b).
 
 Definition taint_code (t : taint) : nat :=
-  match t with TSetBits => 0 | TSetIdx => 1 | TSetForward => 2 | TSetReverse => 3 | TRemFlag => 4 | TDelNested => 5
+  match t with TSetReverse => 3 | TRemFlag => 4 | TDelNested => 5
              | TNewPk => 6 | TDelCreated => 7 | TInconsistent => 8 end.
 
 Record osnap := mkos {
